@@ -20,7 +20,7 @@ RULE = (
     "E3 explicit-state BFS on the real DefaultTrackerHandler inside a real Plan, driven through Plan.emit_event with "
     "FINISHED_EVALUATION events built from real result objects. Event alphabet: weighted objective {NaN,0,1,1(tie),2} x "
     "feasibility {feasible, violation just below tol, bound / linear / non-linear violation just above tol} x kind "
-    "{FunctionResults, functions=None, GradientResults} x source {tracked, other}, plus events carrying a pair of results; "
+    "{FunctionResults, functions=None, GradientResults} x source {tracked, other}, plus events carrying a pair of results, plus the user resetting the tracker (plan.set(tracker, 'results', None)); "
     "x tolerance {1e-10, None, 0.5, 0.0} x transforms {none, scaling, sign-flip (maximization)} x what {best,last}. State = "
     "(objective of the retained result, reference best, reference last): fully observable, merged; BFS to closure, plus a "
     "no-merge run over all sequences up to a depth. Conformance: every model trace up to a depth is replayed through "
@@ -50,7 +50,7 @@ def obj_value(sym: str) -> float:
 
 
 def single_events() -> list[tuple[Any, ...]]:
-    return [("one", (o, f, k, s)) for o in OBJECTIVES for f in FEAS for k in KINDS for s in SOURCES]
+    return [("one", (o, f, k, s)) for o in OBJECTIVES for f in FEAS for k in KINDS for s in SOURCES] + [("reset",)]
 
 
 def pair_events() -> list[tuple[Any, ...]]:
@@ -150,6 +150,11 @@ def build(hist: list[Any], what: str, tol: float | None, tname: str) -> Built:
     b.tracker = b.plan.add_handler("tracker", what=what, constraint_tolerance=tol, sources={src})
     transforms = transforms_for(tname)
     for ev in hist:
+        if ev[0] == "reset":
+            # the user resets the tracker (as tests/test_plan.py::test_reset_results does); the history starts afresh
+            b.plan.set(b.tracker, "results", None)
+            b.delivered.append({"sym": ("reset",), "tracked": False, "reset": True})
+            continue
         syms = ev[1:]
         users, opts = [], []
         for sym in syms:
@@ -172,6 +177,9 @@ def build(hist: list[Any], what: str, tol: float | None, tname: str) -> Built:
 def reference(b: Built, tol: float | None) -> dict[str, Any]:
     valid = []
     for ordinal, item in enumerate(b.delivered):
+        if item.get("reset"):
+            valid = []
+            continue
         o, f, kind, s = item["sym"]
         if s != "tracked" or kind != "func" or not is_feasible(f, tol):
             continue
@@ -384,7 +392,7 @@ def shards(tier: str, seed: int) -> list[dict[str, Any]]:
     return out
 
 
-NOMERGE_ALPHABET = [("one", (o, f, k, s)) for o in ("nan", "0", "1", "2") for f in ("ok", "bound") for k in ("func",) for s in ("tracked", "other")]
+NOMERGE_ALPHABET = [("one", (o, f, k, s)) for o in ("nan", "0", "1", "2") for f in ("ok", "bound") for k in ("func",) for s in ("tracked", "other")][:15] + [("reset",)]
 
 
 def run_shard(shard: dict[str, Any]) -> core.ShardResult:
@@ -418,7 +426,7 @@ def run_shard(shard: dict[str, Any]) -> core.ShardResult:
 def run_case(case: dict[str, Any]) -> Judgement:
     if case["kind"] == "basic":
         return run_basic([tuple(t) for t in case["trace"]], case["transforms"])
-    hist = [tuple(tuple(x) if isinstance(x, list) else x for x in e) for e in case["history"]]
+    hist = [tuple(tuple(x) if isinstance(x, list) else x for x in e) for e in case["history"]]  # ("reset",) stays a 1-tuple
     tol = case["tol"]
     b = build(hist, case["what"], tol, case["transforms"])
     problems, trivial, _ = check_state(b, hist, case["what"], tol, case["transforms"])
